@@ -39,7 +39,7 @@ def all_tilings(n, m):
     yield from rec([[None] * m for _ in range(n)], [])
 
 
-def render(rects, n, m, texts, spell, para=lambda t: f'<w:p><w:r><w:t>{t}</w:t></w:r></w:p>', hidden=lambda k, a: '<w:p/>'):
+def render(rects, n, m, texts, spell, para=lambda t: f'<w:p><w:r><w:t>{t}</w:t></w:r></w:p>', hidden=lambda k, a: '<w:p/>', tracked=None):
     """texts[k] = list of paragraph texts of rectangle k; spell(k, row) in {'bare', 'explicit'} for continuation cells.
     Returns (xml, expected) where expected(dup) is the n x m grid of paragraph-text lists."""
     rows = [[] for _ in range(n)]
@@ -48,6 +48,10 @@ def render(rects, n, m, texts, spell, para=lambda t: f'<w:p><w:r><w:t>{t}</w:t><
     xml = '<w:tbl><w:tblPr><w:tblW w:w="0" w:type="auto"/></w:tblPr><w:tblGrid>' + '<w:gridCol w:w="100"/>' * m + '</w:tblGrid>'
     for a in range(n):
         xml += '<w:tr>'
+        if tracked is not None and tracked.random() < 0.25:
+            # tracked row changes: the OLD row properties sit below w:trPrChange and do not apply
+            xml += tracked.choice(['<w:trPr><w:trPrChange w:id="90" w:author="a"><w:trPr><w:gridBefore w:val="1"/><w:gridAfter w:val="2"/></w:trPr></w:trPrChange></w:trPr>',
+                                   '<w:trPr><w:ins w:id="91" w:author="a"/></w:trPr>', '<w:trPr><w:cantSplit/><w:trPrChange w:id="92" w:author="a"><w:trPr/></w:trPrChange></w:trPr>'])
         for j, k, top in sorted(rows[a]):
             i0, j0, h, w = rects[k]
             pr = ''
@@ -55,6 +59,12 @@ def render(rects, n, m, texts, spell, para=lambda t: f'<w:p><w:r><w:t>{t}</w:t><
             if h > 1:
                 if top: pr += '<w:vMerge w:val="restart"/>'
                 else: pr += '<w:vMerge/>' if spell(k, a) == 'bare' else '<w:vMerge w:val="continue"/>'
+            if tracked is not None and tracked.random() < 0.3:
+                # a tracked change of the cell properties: the OLD span / merge below w:tcPrChange does not apply
+                pr += tracked.choice(['<w:tcPrChange w:id="93" w:author="a"><w:tcPr><w:gridSpan w:val="3"/></w:tcPr></w:tcPrChange>',
+                                      '<w:tcPrChange w:id="94" w:author="a"><w:tcPr><w:vMerge w:val="restart"/><w:gridSpan w:val="2"/></w:tcPr></w:tcPrChange>',
+                                      '<w:tcPrChange w:id="95" w:author="a"><w:tcPr><w:vMerge/></w:tcPr></w:tcPrChange>', '<w:cellIns w:id="96" w:author="a"/>',
+                                      '<w:tcPrChange w:id="97" w:author="a"><w:tcPr><w:tcW w:w="5" w:type="dxa"/></w:tcPr></w:tcPrChange>'])
             body = ''.join(para(t) for t in texts[k]) if top else hidden(k, a)
             xml += f'<w:tc><w:tcPr><w:tcW w:w="100" w:type="dxa"/>{pr}</w:tcPr>{body}</w:tc>'
         xml += '</w:tr>'
